@@ -25,7 +25,7 @@ FUNCTIONS = [
 ASSUMPTIONS = [
     "coroutines as sequential procedures (vc.drive); asyncio.gather runs each awaitable exactly once; a task created by create_task is observed by driving its coroutine",
     "loop.getaddrinfo for a numeric host/port returns that host text and port (contracts/looplib.py); the textual form of an IP address is in one-to-one correspondence with the address",
-    "transport.sendto is a recorder; 'subscribed at that time' = when the round's task runs (the set is read without an intervening await)",
+    "transport.sendto is a recorder; 'subscribed at that time' = when the round's task runs: the round builds all its notifications from the set before its first await (the comprehension contract sees coroutine objects, not awaited calls), and the native twin changes the set while the round is in flight",
 ]
 BOUNDED = []
 LEVEL = "proof"
@@ -291,12 +291,22 @@ def ob_notify_all(vc):
     if vc.native:
         # a replay runs the whole round on the real code: one notification per subscriber
         started = []
+        late = gen_endpoint(vc, "late_subscriber")
+        leaves = vc.bool("a_subscriber_leaves_during_the_round")
 
         async def single(endpoint, events=None, label=None):
             started.append((endpoint, events))
+            # while a notification is in flight (address resolution is awaited) the set of
+            # subscribers changes: the round still reaches everybody subscribed when it began
+            if len(started) == 1:
+                if leaves:
+                    w.group.subscribed_endpoints.discard(endpoint)
+                else:
+                    w.group.subscribed_endpoints.add(late)
 
         vc.stub(w.group, "_notify_single", single)
         members = set(w.group.subscribed_endpoints)
+        vc.assume(late not in members)
         vc.drive(w.group._notify_all(events, "test"), log)
         vc.check_eq(sorted([repr(e) for e, _ in started]), sorted([repr(e) for e in members]), "_notify_all.one_notification_per_subscribed_endpoint")
         vc.check(all(same_events(ev, events) for _, ev in started), "_notify_all.with_the_rounds_events")
